@@ -859,7 +859,9 @@ async def _inbound_xfr(
         tcp_sock = cast(dns.asyncbackend.StreamSocket, s)
         tcpmsg = struct.pack("!H", len(wire)) + wire
         await tcp_sock.sendall(tcpmsg, expiration)
-    with dns.xfr.Inbound(txn_manager, rdtype, serial, is_udp) as inbound:
+    with dns.xfr.Inbound(
+        txn_manager, rdtype, serial, is_udp, bool(query.keyring)
+    ) as inbound:
         done = False
         tsig_ctx = None
         r: dns.message.Message | None = None
